@@ -222,6 +222,18 @@ class StepOracle(Base):
                 bad = "mu"
             elif np.any(np.abs(np.asarray(kw["abs_sq_psi"]) - sq) > 1e-13 * sq + 1e-300):
                 bad = "abs_sq_psi"
+            sv = ctx["solver"]
+            if bad is None and getattr(sv, "dynamic_epsilon", False):
+                # a time-dependent epsilon is the user's function evaluated at the time of THIS step
+                self.count("step_epsilon_checks")
+                fn, t = sv.disorder_epsilon, ctx["time"]
+                if getattr(sv, "vectorized_epsilon", False):
+                    want = np.asarray(fn(sv.sites, t=t), dtype=float)
+                else:
+                    want = np.array([float(fn(r, t=t)) for r in sv.sites])
+                if not np.array_equal(np.asarray(kw["epsilon"], dtype=float), want):
+                    self.viol("step_not_built_from_current_state", "step_built_from_foreign_state",
+                              {"step": ctx["step"], "argument": "epsilon", "time": t, "max_abs_diff": float(np.max(np.abs(np.asarray(kw["epsilon"]) - want)))})
             if bad:
                 self.viol("step_not_built_from_current_state", "step_built_from_foreign_state",
                           {"step": ctx["step"], "argument": bad, "max_abs_diff": float(np.max(np.abs(np.asarray(kw[bad]) - {"psi": pin, "mu": mun, "abs_sq_psi": sq}[bad])))})
